@@ -2,7 +2,7 @@
    trie is well-formed and its ToSlice is the specification map of the same history. *)
 From Coq Require Import List NArith Arith Bool Lia.
 From Verif.Common Require Import Prefix.
-From Verif.C36 Require Import Model Spec Proofs Queries.
+From Verif.C36 Require Import Model Spec Proofs Queries General.
 Import ListNotations.
 
 Section W.
@@ -71,6 +71,59 @@ Section W.
     apply andb_true_iff in H1. destruct H1 as [Ho H1].
     apply andb_true_iff in H2. destruct H2 as [Hp H2].
     pose proof (step_ok t o W Ho Hp) as OK.
+    destruct (step_trie_spec t o W Ho) as [W' S'].
+    destruct (step w t o) as [t' r] eqn:ST. simpl in *.
+    rewrite OK. simpl. rewrite <- S'. apply IH; auto.
+  Qed.
+
+  (* ---------------------------------------------------------------- *)
+  (* the oracle accepts every run of the model, all operations         *)
+
+  Lemma ok_lpm_general : forall t q, wf w t -> wfp w q -> Nat.eqb (plen q) w = false ->
+    ok_lpm w (to_slice t) q (lpm w t q) = true.
+  Proof.
+    intros t q W Hq NE. unfold ok_lpm. rewrite NE. rewrite (lpm_general_spec w t q W Hq).
+    unfold spec_lpm_general.
+    destruct (is_node w (to_slice t) q) eqn:IN.
+    - destruct (spec_lpm_cover w (to_slice t) q) as [[p v]|] eqn:R.
+      + unfold spec_lpm_cover in R. destruct (longest_some _ _ _ R) as (I1 & F1 & _). simpl in F1.
+        rewrite (in_slice_get w t W p v I1). simpl. rewrite N.eqb_refl.
+        rewrite (covers_contains w p q F1). simpl. apply Nat.leb_refl.
+      + unfold spec_lpm_cover in R. apply negb_true_iff. apply existsb_false.
+        intros e He. apply (longest_none _ _ R e He).
+    - destruct (spec_lpm_addr w (to_slice t) (paddr q)) as [[p v]|] eqn:R.
+      + unfold spec_lpm_addr in R. destruct (longest_some _ _ _ R) as (I1 & F1 & M1). simpl in F1.
+        rewrite (in_slice_get w t W p v I1). simpl. rewrite N.eqb_refl, F1. simpl.
+        destruct (spec_lpm_cover w (to_slice t) q) as [[b vb]|] eqn:R2; auto.
+        unfold spec_lpm_cover in R2. destruct (longest_some _ _ _ R2) as (I2 & F2 & _). simpl in F2.
+        apply Nat.leb_le. apply (M1 (b, vb) I2). simpl. apply (covers_contains w b q F2).
+      + unfold spec_lpm_addr in R. apply negb_true_iff. apply existsb_false.
+        intros e He. pose proof (longest_none _ _ R e He) as F. simpl in F.
+        destruct (covers w (fst e) q) eqn:C; auto. apply (covers_contains w) in C. congruence.
+  Qed.
+
+  Lemma step_ok_full : forall t o, wf w t -> op_wf w o = true ->
+    ok_out w (to_slice t) o (snd (step w t o)) = true.
+  Proof.
+    intros t o W Ho.
+    destruct (op_proved o) eqn:P; [apply step_ok; auto|].
+    destruct o; simpl in P; try discriminate.
+    - (* LPM with a shorter query *)
+      simpl in Ho. apply wfpb_spec in Ho. unfold step. cbn [snd ok_out]. apply ok_lpm_general; auto.
+    - (* ClosestDescendants *)
+      simpl in Ho. apply andb_true_iff in Ho. destruct Ho as [Ho _]. apply wfpb_spec in Ho.
+      unfold step. cbn [snd]. rewrite (closest_descendants_spec w t c buf W Ho). cbn [ok_out]. unfold ok_closest.
+      destruct (is_node w (to_slice t) c).
+      + apply list_eqb_refl. apply prefix_eqb_refl.
+      + reflexivity.
+  Qed.
+
+  Theorem model_meets_spec : forall ops t, wf w t -> forallb (op_wf w) ops = true ->
+    ok_trace_from w (to_slice t) ops (run w t ops) = true.
+  Proof.
+    induction ops as [|o ops IH]; intros t W H1; simpl in *; auto.
+    apply andb_true_iff in H1. destruct H1 as [Ho H1].
+    pose proof (step_ok_full t o W Ho) as OK.
     destruct (step_trie_spec t o W Ho) as [W' S'].
     destruct (step w t o) as [t' r] eqn:ST. simpl in *.
     rewrite OK. simpl. rewrite <- S'. apply IH; auto.
